@@ -369,6 +369,34 @@ def run(prog, rep, tier, repo):
     else:
         rep.undecided('reduction-wiring', key, 'norm is a square root of something not read as dot(x, x): %s' % show_expr(nrm)[:120],
                       site_of(pdb.bodies.get('linalg::utils::norm')), proof=False)
+    # norm on constant-vector witnesses: the closed form is evaluated for x = (v, .., v) of length n -- every reduction applies its one-element
+    # update n times from its seed -- and compared with |v| sqrt(n).  The all-zero vector is the witness that matters: a norm that scales by
+    # the largest magnitude first divides 0 by 0 there
+    key = 'reduction-wiring:linalg::utils::norm:witness'
+    import math as _m
+    bad_, used_ = None, 0
+    if not has_top(nrm) and len(nrm) == 1:
+        for v_, n_ in ((0.0, 3), (3.0, 4), (-2.0, 9), (1e-200, 2), (1e200, 2)):
+            try:
+                got_ = _const_vector_eval(next(iter(nrm)), v_, n_)
+            except _Unread:
+                continue
+            used_ += 1
+            want_ = abs(v_) * _m.sqrt(n_)
+            if _m.isinf(got_) and abs(v_) > 1e150:
+                continue          # overflow of the plain sum of squares for huge entries is not judged here
+            if abs(v_) < 1e-150 and got_ == 0.0:
+                continue          # nor its underflow for tiny ones
+            if got_ != got_ or abs(got_ - want_) > 1e-9 * max(1.0, abs(want_)):
+                bad_ = (v_, n_, got_, want_)
+                break
+    if bad_:
+        rep.viol('reduction-wiring', key, 'norm of the vector of %d entries all equal to %r evaluates to %r; the Euclidean norm is %r' % (bad_[1], bad_[0], bad_[2], bad_[3]),
+                 site_of(pdb.bodies.get('linalg::utils::norm')))
+    elif used_:
+        rep.ok('reduction-wiring', key, 'norm of constant vectors (the zero vector included) equals |v| sqrt(n) on %d witnesses' % used_)
+    else:
+        rep.undecided('reduction-wiring', key, 'closed form of norm not evaluated on constant vectors', site_of(pdb.bodies.get('linalg::utils::norm')), proof=False)
     pr, _ = eng.result_of('linalg::utils::prod', {1: S})
     key = 'reduction-wiring:linalg::utils::prod:def'
     if pr == frozenset([('red', 'product', S)]):
@@ -445,3 +473,101 @@ def _is_max_of_abs_sums(e):
             return True
         return False
     return sum_of_abs(inner)
+
+
+class _Unread(Exception):
+    pass
+
+
+def _const_vector_eval(e, v, n):
+    """value of an element-abstraction closed form when every element of the input is v and there are n of them: a reduction starts from
+    its constant seed (0 for a sum without one) and applies its smallest one-element update n times"""
+    import math
+
+    def ev(x, acc=None):
+        k = x[0]
+        if k == 'sym':
+            if x[1] == 'acc':
+                if acc is None:
+                    raise _Unread('acc outside a reduction')
+                return acc
+            return v
+        if k == 'c':
+            return float(x[1])
+        if k == 'cast':
+            return float(ev(x[1], acc))
+        if k == 'len':
+            return float(n)
+        if k == 'neg':
+            return -ev(x[1], acc)
+        if k == 'b':
+            a, b = ev(x[2], acc), ev(x[3], acc)
+            try:
+                if x[1] == 'Add':
+                    return a + b
+                if x[1] == 'Sub':
+                    return a - b
+                if x[1] == 'Mul':
+                    return a * b
+                if x[1] == 'Div':
+                    if b == 0.0:
+                        return float('nan') if (a == 0.0 or a != a) else math.copysign(float('inf'), a) * math.copysign(1.0, b)
+                    return a / b
+            except OverflowError:
+                return float('inf')
+            raise _Unread('op ' + x[1])
+        if k == 'm':
+            args = [ev(a_, acc) for a_ in x[2:]]
+            nm = x[1]
+            try:
+                if nm == 'sqrt':
+                    return math.sqrt(args[0]) if args[0] >= 0 else float('nan')
+                if nm == 'abs':
+                    return abs(args[0])
+                if nm == 'max':
+                    return max(args) if not any(a_ != a_ for a_ in args) else [a_ for a_ in args if a_ == a_][0] if any(a_ == a_ for a_ in args) else float('nan')
+                if nm == 'min':
+                    return min(args) if not any(a_ != a_ for a_ in args) else [a_ for a_ in args if a_ == a_][0] if any(a_ == a_ for a_ in args) else float('nan')
+                if nm == 'powi':
+                    return args[0] ** int(args[1])
+                if nm == 'exp':
+                    return math.exp(args[0])
+                if nm == 'ln':
+                    return math.log(args[0]) if args[0] > 0 else (float('-inf') if args[0] == 0 else float('nan'))
+            except (OverflowError, ValueError):
+                return float('inf')
+            raise _Unread('method ' + nm)
+        if k == 'red':
+            forms = list(x[2])
+            seeds = [f_ for f_ in forms if f_[0] == 'c']
+            ups = [f_ for f_ in forms if f_[0] != 'c']
+            if x[1] == 'sum':
+                tot = 0.0
+                if len(ups) != 1 and not (len(forms) == 1):
+                    raise _Unread('sum of several forms')
+                term = ev(forms[0] if len(forms) == 1 else ups[0], None)
+                for _ in range(n):
+                    tot += term
+                return tot
+            if x[1] == 'product':
+                tot = 1.0
+                term = ev(forms[0], None)
+                for _ in range(n):
+                    tot *= term
+                return tot
+            ups = [u for u in ups if _mentions_acc(u)]
+            if not ups or len(seeds) > 1:
+                raise _Unread('reduction without an update')
+            one = min(ups, key=lambda u: len(repr(u)))
+            a_ = ev(seeds[0]) if seeds else 0.0
+            for _ in range(n):
+                a_ = ev(one, a_)
+            return a_
+        raise _Unread('node ' + str(k))
+    return ev(e)
+
+
+def _mentions_acc(u):
+    if u == ('sym', 'acc'):
+        return True
+    return isinstance(u, tuple) and any(_mentions_acc(y) for y in u[1:] if isinstance(y, tuple))
